@@ -47,6 +47,9 @@ WATCHDOG = 300
 ISOLATED_WATCHDOG = 150
 MAX_RERUNS = 10
 AUDIT = bool(os.environ.get("C29_AUDIT"))
+# oracle self-test: C29_SELFTEST_FLIP=<i> makes the harness flip one bit of the expected image of case <i> of every run (on the
+# last rank): the check must then report a wrong-result violation for that case (never set in a real run)
+SELFTEST_FLIP = int(os.environ["C29_SELFTEST_FLIP"]) if os.environ.get("C29_SELFTEST_FLIP") else None
 CASELOG = os.environ.get("C29_CASELOG")      # development aid: one line per evaluated case: unit np layout | case | ok or kind
 _caselog_lock = threading.Lock()
 
@@ -126,6 +129,8 @@ def execute(env, unit, np, layout, cases, sync=False, timeout=WATCHDOG):
         cmd.append("sync")
     if layout == "rev":
         cmd.append("rev")
+    if SELFTEST_FLIP is not None:
+        cmd.append("flip=%d" % SELFTEST_FLIP)
     res = proc.run(cmd, timeout=timeout)
     for attempt in range(4):
         # libsimgrid.so being relinked by a concurrent build (other checks share the build tree): not a result
